@@ -180,6 +180,16 @@ Theorem C05_lex_min_space : forall fops l,
 Proof. exact lex_render_min_space. Qed.
 Print Assumptions C05_lex_min_space.
 
+(* [needs_space] is exact: for two adjacent spelled tokens (b the last one or followed by white
+   space) the lexer returns a and leaves b's text untouched IF AND ONLY IF needs_space a b = false. *)
+Theorem C05_needs_space_exact : forall fops a b rest,
+  spelled fops a -> spelled fops b ->
+  (rest = [] \/ exists w s, rest = w :: s /\ is_ws w) ->
+  (needs_space a b = false <->
+   lex1 fops (snd a ++ snd b ++ rest) = Ok (Some (fst a, snd b ++ rest))).
+Proof. exact needs_space_exact_ws. Qed.
+Print Assumptions C05_needs_space_exact.
+
 (* ... and so does every text that has white space at least there ([spelt]: any white space may
    be added in front of any token and at the end). *)
 Theorem C05_lex_spelt : forall fops l src,
